@@ -18,7 +18,7 @@ def powFracV (c nc : Ctx) (x z frac : Dec) (res : Cond) (tape : Tape) : Option (
     let s5 := e4.step tmp (fun c => mulOp c z tmp)
     if s5.1.failed then some ({ d := decNaN, fl := s5.1.fl, err := s5.1.errOf }, tape) else
     let rr := ctxRound c s5.2
-    let res := res ||| rr.2 ||| cInexact
+    let res := res ||| rr.2 ||| cInexact ||| cRounded
     some ({ d := { rr.1 with neg := false }, fl := res, err := goError c.traps res }, tape)
 
 /-- `powT` when no special case applies (its text) -/
